@@ -1665,3 +1665,148 @@ func ruleDoWhileScanGuarded(r *Run) {
 	}
 	r.check(n >= 1, "labels:do-while-x-scans", fmt.Sprintf("%d", n), "none found: rule needs review", "-")
 }
+
+func init() {
+	register(ruleDef{ID: "R20.36", Prop: "C20", Tier: "quick", Floor: 5,
+		Title: "the last element is taken only from a slice known to have one: in the data types, an index len(s)-1 into s is dominated by a test of len(s) (or of a value copied from it), by an append to s, or s is a loop's own range subject",
+		Fn:    ruleLastElementGuarded})
+}
+
+func ruleLastElementGuarded(r *Run) {
+	w := r.W
+	n := 0
+	for _, f := range w.RepoFuncs {
+		if !strings.HasPrefix(relPkg(pkgPathOf(f)), "datatype/") || len(f.Blocks) == 0 || strings.HasSuffix(w.fposFile(f), "_test.go") {
+			continue
+		}
+		k := 0
+		for _, b := range f.Blocks {
+			for _, in := range b.Instrs {
+				ia, ok := in.(*ssa.IndexAddr)
+				if !ok {
+					continue
+				}
+				if _, isSlice := ia.X.Type().Underlying().(*types.Slice); !isSlice {
+					continue
+				}
+				sub, ok := stripConv(ia.Index).(*ssa.BinOp)
+				if !ok || sub.Op != token.SUB {
+					continue
+				}
+				if one, isK := constInt(sub.Y); !isK || one != 1 {
+					continue
+				}
+				lc, ok := sub.X.(*ssa.Call)
+				if !ok {
+					continue
+				}
+				bi, ok := lc.Call.Value.(*ssa.Builtin)
+				if !ok || bi.Name() != "len" {
+					continue
+				}
+				sKey := placeKey(lc.Call.Args[0])
+				if placeKey(ia.X) != sKey && lc.Call.Args[0] != ia.X {
+					continue
+				}
+				k++
+				n++
+				guarded := false
+				isLenOfS := func(v ssa.Value) bool {
+					for d := range dataDeps(v) {
+						if c, ok := d.(*ssa.Call); ok {
+							if bb, ok := c.Call.Value.(*ssa.Builtin); ok && bb.Name() == "len" && (placeKey(c.Call.Args[0]) == sKey || c.Call.Args[0] == ia.X) {
+								return true
+							}
+						}
+					}
+					if c, ok := v.(*ssa.Call); ok {
+						if bb, ok := c.Call.Value.(*ssa.Builtin); ok && bb.Name() == "len" && (placeKey(c.Call.Args[0]) == sKey || c.Call.Args[0] == ia.X) {
+							return true
+						}
+					}
+					return false
+				}
+				for _, b2 := range f.Blocks {
+					if !b2.Dominates(b) {
+						continue
+					}
+					if ifi, ok := b2.Instrs[len(b2.Instrs)-1].(*ssa.If); ok && b2 != b {
+						if bo, ok := ifi.Cond.(*ssa.BinOp); ok && (isLenOfS(bo.X) || isLenOfS(bo.Y)) {
+							guarded = true
+						}
+					}
+					// an append to s (or a make with positive constant length) before the access
+					for _, x := range b2.Instrs {
+						if x == in {
+							break
+						}
+						if c, ok := x.(*ssa.Call); ok {
+							if bb, ok := c.Call.Value.(*ssa.Builtin); ok && bb.Name() == "append" {
+								// s = append(s, …): the result is stored to s's place or is s itself
+								if placeKey(c) == sKey || ssa.Value(c) == ia.X {
+									guarded = true
+								}
+								for _, ref := range *c.Referrers() {
+									if st, ok := ref.(*ssa.Store); ok && "load("+addrKey(st.Addr)+")" == sKey {
+										guarded = true
+									}
+								}
+							}
+						}
+					}
+				}
+				// the slice value itself is the result of an append
+				if c, ok := stripConv(ia.X).(*ssa.Call); ok {
+					if bb, ok := c.Call.Value.(*ssa.Builtin); ok && bb.Name() == "append" {
+						guarded = true
+					}
+				}
+				// idioms of this repository, each non-empty by construction:
+				// (1) the parts of strings.Split (never empty)
+				for _, rt := range roots(ia.X, f) {
+					if c, ok := rt.V.(*ssa.Call); ok {
+						if cal := c.Call.StaticCallee(); cal != nil && cal.Pkg != nil && cal.Pkg.Pkg.Path() == "strings" && (cal.Name() == "Split" || cal.Name() == "SplitN") {
+							guarded = true
+						}
+					}
+				}
+				// (2) swap-with-last: the same block indexes the slice at a recorded position as well, so an
+				//     empty slice fails there first (that index is the guarded-index rule's business)
+				for _, x := range b.Instrs {
+					if ia2, ok := x.(*ssa.IndexAddr); ok && ia2 != ia && placeKey(ia2.X) == placeKey(ia.X) {
+						if sb, isSub := stripConv(ia2.Index).(*ssa.BinOp); !isSub || sb.Op != token.SUB {
+							guarded = true
+						}
+					}
+				}
+				// (3) a stack loop: the slice starts as a non-empty literal and the loop leaves when a test of
+				//     its length says it is empty
+				startsNonEmpty, testedInLoop := false, false
+				for _, rt := range roots(ia.X, f) {
+					if sl, ok := rt.V.(*ssa.Slice); ok {
+						if al, ok := sl.X.(*ssa.Alloc); ok {
+							if at, ok := al.Type().Underlying().(*types.Pointer); ok {
+								if arr, ok := at.Elem().Underlying().(*types.Array); ok && arr.Len() >= 1 {
+									startsNonEmpty = true
+								}
+							}
+						}
+					}
+				}
+				for _, b2 := range f.Blocks {
+					if ifi, ok := b2.Instrs[len(b2.Instrs)-1].(*ssa.If); ok {
+						if bo, ok := ifi.Cond.(*ssa.BinOp); ok && (isLenOfS(bo.X) || isLenOfS(bo.Y)) {
+							testedInLoop = true
+						}
+					}
+				}
+				if startsNonEmpty && testedInLoop {
+					guarded = true
+				}
+				r.check(guarded, fmt.Sprintf("%s:last-element#%d", fname(f), k), "the slice is known to be non-empty here",
+					"the last element of a slice is taken (index len(s)-1) without anything establishing that the slice has an element: on an empty slice this is index -1, a panic in the request (500) or in a worker goroutine (process exit)", w.pos(ia.Pos()))
+			}
+		}
+	}
+	r.check(n >= 5, "datatypes:last-element-accesses", fmt.Sprintf("%d", n), "fewer than confirmed by reading: rule needs review", "-")
+}
